@@ -36,12 +36,16 @@ CLAIMS = {
         note='Trusted: stub steps. Outside: GitAudit/UrlAudit scanners, audit generation ordering inside the cook functions (world harness).'),
     'C20': dict(
         engine='X',
-        technique='CrossHair+z3 enumeration of recipe graphs (dependency kinds symbolic) through the real Jenkins job name calculation, job population and build order code',
-        text='Job graph part: for root + three variants of one recipe + a second recipe + a tool package existing inside and outside a sandbox, with every dependency kind (none/argument/tool) between the packages in index '
+        technique='CrossHair+z3 enumeration of recipe graphs (dependency kinds symbolic) through the real Jenkins job name calculation, job population and build order code on stub packages; CrossHair+z3 enumeration of generated real '
+                  'projects through the real PartialIR serialisation round trip (json) and the real job generation',
+        text='(1) Job graph: for root + three variants of one recipe + a second recipe + a tool package existing inside and outside a sandbox, with every dependency kind (none/argument/tool) between the packages in index '
              'order, root dependency subsets/orders, sandbox use and an isolate pattern: the job graph is acyclic (genJenkinsBuildOrder succeeds and is topological), every reachable package step is built by exactly one job, '
-             'every step is in a job, and each job lists the jobs of all its arguments, tools and sandbox as upstream. Not covered: the embedded job specification (PartialIR round trip), job XML, workspace assignment on the node.',
+             'every step is in a job, and each job lists the jobs of all its arguments, tools and sandbox as upstream. (2) Fidelity: for generated real projects (tools strong/weak, sandbox, multiPackage variants, a package built '
+             'inside and outside the sandbox, hostile variable values, fingerprinted tool; 9 feature bits) the job specification PartialIR.add -> toData -> json -> fromData reproduces for every package: Variant-Ids, scripts, '
+             'environment, tools (path, libs, provider), arguments in order, sandbox, determinism flags of all its steps and the identity (id, workspace, sandbox) of its dependencies; the Build-Id computed on the '
+             'reconstruction equals the one a local build computes; the job oracles of (1) hold on the real packages.',
         design_ref='DESIGN.md section 4, C20',
-        note='Trusted: stub packages. Id fidelity between project and build node rests on the C03 equivalence CoreStep.getDigest == StepIR.getDigestCoro. Outside: exec.py, XML, more than 3 variants.'),
+        note='Trusted: stub packages in (1). Outside: job XML text, exec.py run on a node, more than 3 variants, SCM specifications inside the job specification (projects use checkoutScript only).'),
     'C08': dict(
         engine='X',
         technique='CrossHair+z3 enumeration of hostile member lists through the real TarHelper/_tarExtractFilter and the stdlib tarfile extraction code (private module copy) on a stub file system; counterexamples replayed in a real temporary directory',
